@@ -105,7 +105,7 @@ Run(j, mode) ==
          D == m.lab
          j2 == Len(msgs) + 1
          hd == <<[E0 EXCEPT !.e = "run", !.j = j, !.s = mode]>>
-         tl == <<[E0 EXCEPT !.e = "ran", !.j = j], DeclEv(decl)>>
+         tl == <<[E0 EXCEPT !.e = "ran", !.j = j, !.s = "ok"], DeclEv(decl)>>
          seen(pt, f) == [E0 EXCEPT !.e = "seen", !.pt = pt, !.j = j, !.tid = m.tid, !.lab = LabSeq(f)]
          body == <<seen("mw", D), [E0 EXCEPT !.e = "exec", !.j = j, !.tid = m.tid, !.x = 5, !.s = "z"], seen("ctx", D)>>
          save(okk, cls, f) == <<[E0 EXCEPT !.e = "save", !.j = j, !.tid = m.tid, !.ok = okk, !.s = cls], seen("res", f)>>
